@@ -287,6 +287,10 @@ impl Fam {
 	}
 
 	pub fn fail(&mut self, case: J, message: String, signature: Option<String>) {
+		if is_skip(&message) {
+			self.exclude(skip_reason(&message));
+			return;
+		}
 		if self.failures.len() < MAX_FAILURES_PER_FAMILY
 			|| (signature.is_some()
 				&& !self.failures.iter().any(|f| f.signature == signature)
@@ -667,6 +671,23 @@ impl Outcome {
 	}
 }
 
+/// Convention: a property function answers `Err("SKIP: <reason>")` when the *premise* of its property is not met
+/// on a case because of something another property is responsible for (typically: the parser rejected a valid
+/// document, so "when parsing succeeds ..." says nothing). Such cases are counted as excluded under the reason and
+/// are neither passes nor failures: a check must not raise an alarm for a property that still holds.
+pub fn is_skip(msg: &str) -> bool {
+	msg.starts_with("SKIP:") || msg.contains(": SKIP:")
+}
+
+pub fn skip_reason(msg: &str) -> &str {
+	let i = msg.find("SKIP:").map(|i| i + 5).unwrap_or(0);
+	let r = msg[i..].trim();
+	let end = r.char_indices().nth(90).map(|(i, _)| i).unwrap_or(r.len());
+	let r = &r[..end];
+	// keep the reason free of case-specific detail so that it aggregates
+	r.split(" [").next().unwrap_or(r)
+}
+
 /// Runs `total_cases` cases of `strategy` split over `shards` seeded proptest
 /// runners (in parallel). `check` is the property; `encode` turns a case into
 /// the replay encoding; `hash` gives a hash of the case for distinct counting.
@@ -737,6 +758,16 @@ where
 									f.sample(|| e);
 								}
 							}
+						}
+						Ok(())
+					}
+					Err((msg, _)) if is_skip(&msg) => {
+						// the premise of this property is not met on this case (e.g. the parser rejected a valid
+						// document: another property's business): counted as excluded, neither pass nor failure
+						if counting {
+							let mut f = fcell.borrow_mut();
+							f.tick();
+							f.exclude(skip_reason(&msg));
 						}
 						Ok(())
 					}
